@@ -230,7 +230,7 @@ MANIFEST = dict(
          "of their grammar; inputs and outputs live in allocations of exactly the contractual size so AddressSanitizer reports any access outside "
          "them; return values are compared with small independent acceptance models. The thorough tier adds libFuzzer campaigns (one target per "
          "family, seeded and empty corpora) whose crash artifacts are minimised, converted to replay cases and confirmed 3x. Exploration is the "
-         "right level: the input space is unbounded byte strings and the oracle (sanitizer + range) is exact on every input.",
+         "right level: the input space is unbounded byte strings and the oracle (sanitizer + range) is exact on every input. The key-file and passphrase-file readers also meet an fclose() that closes the stream and then reports failure, and a second binary links the real util/warnp.c in syslog mode with rejection messages longer than a syslog line.",
     note="Trusted: clang 14 ASan/UBSan/libFuzzer, rapidcheck, glibc inet_pton/strtoimax (address model). Known finding F7 (unbounded recursion "
          "in json_find) is pinned by regress/C15/known-F7-depth.case; ordinary documents stay below 5000 containers. Not covered: host-name "
          "forms of sock_resolve (system resolver), readpass() from a terminal, allocation failure inside the parsers (C14).",
